@@ -22,27 +22,27 @@ type Item struct {
 }
 
 type Gen struct {
-	P          *Program
-	decls      []string
-	declSet    map[string]bool
-	defs       []string
-	items      []Item
-	nfresh     int
-	heapSort   map[string]string // heap array name -> SMT sort of the whole array
-	strLits    map[string]string
-	tags       map[string]int // type tag ids
-	warnings   []string
-	havocs     map[string]int // callee -> count of havoc-all abstractions
-	assumed    map[string]bool
-	boxed      map[string]bool
-	curPkg     *types.Package
-	vcBytes    int
+	P           *Program
+	decls       []string
+	declSet     map[string]bool
+	defs        []string
+	items       []Item
+	nfresh      int
+	heapSort    map[string]string // heap array name -> SMT sort of the whole array
+	strLits     map[string]string
+	tags        map[string]int // type tag ids
+	warnings    []string
+	havocs      map[string]int // callee -> count of havoc-all abstractions
+	assumed     map[string]bool
+	boxed       map[string]bool
+	curPkg      *types.Package
+	vcBytes     int
 	heapRefKind map[string]string
 	epochAlloc  map[string]string
-	edgeCovers bool // development aid: one reachability query per CFG edge
-	intMode    bool // integers are mathematical (Int) with overflow obligations; otherwise bit-vectors
-	lemmaTerms []string
-	lemmaNames []string
+	edgeCovers  bool // development aid: one reachability query per CFG edge
+	intMode     bool // integers are mathematical (Int) with overflow obligations; otherwise bit-vectors
+	lemmaTerms  []string
+	lemmaNames  []string
 }
 
 func newGen(p *Program, intMode bool) *Gen {
